@@ -242,6 +242,56 @@ func runC04(r *vf.Runner) {
 			})
 		}
 	}
+	// Same-shaped branches: k task sets with the same operator sequence in one invocation, each feeding
+	// a shuffle, with different data. Their names (and, with machine combiners, their combine keys) may
+	// only differ in what the compiler adds to tell them apart; executors that address tasks by name
+	// must still keep them apart.
+	for _, shape := range []string{"const", "readerfunc>map", "const>reduce", "readerfunc>map>reduce"} {
+		for _, k := range []int{2, 3} {
+			for _, nested := range []bool{false, true} {
+				var nodes []PNode
+				var heads []int
+				nb := k
+				if nested {
+					nb = k + 1
+				}
+				for b := 0; b < nb; b++ {
+					ops := strings.Split(shape, ">")
+					srcOp := ops[0]
+					nodes = append(nodes, PNode{Op: srcOp, Shards: 2, Rows: 60 + 7*b, Out: []string{"int", "int64"}, Salt: uint64(1000 + 31*b), Mod: 9, Chunks: []int{16}})
+					cur := len(nodes) - 1
+					for _, op := range ops[1:] {
+						switch op {
+						case "map":
+							nodes = append(nodes, PNode{Op: "map", In: []int{cur}, Salt: 3, Out: []string{"int", "int64"}, Src: []int{0, 1}})
+						case "reduce":
+							nodes = append(nodes, PNode{Op: "reduce", In: []int{cur}, Fold: "sum"})
+						}
+						cur = len(nodes) - 1
+					}
+					heads = append(heads, cur)
+				}
+				if nested {
+					// the last two branches are joined first, the result with the others
+					nodes = append(nodes, PNode{Op: "cogroup", In: append([]int{}, heads[len(heads)-2:]...), Shards: 2})
+					heads = append(heads[:len(heads)-2], len(nodes)-1)
+					if len(heads) > 3 {
+						heads = heads[len(heads)-3:]
+					}
+				}
+				nodes = append(nodes, PNode{Op: "cogroup", In: append([]int{}, heads...), Shards: 3})
+				c := c04case{Spec: Spec{Nodes: nodes}}
+				for _, sc := range []sessConf{localP4, bm2,
+					{Kind: "bigmachine", P: 4, MachProcs: 2, MaxLoad: 0.95, Combiners: true}} {
+					c.Confs = append(c.Confs, defaultExec(sc))
+				}
+				r.Case(c, func(t *vf.T) {
+					runC04case(t, pool, c)
+					t.Count("same_shaped_branch_programs", 1)
+				})
+			}
+		}
+	}
 	// Combiner contention: many reduce tasks with many keys per partition share one machine, so
 	// that with machine combiners several tasks of an operator compete for the per-partition
 	// combiner of their machine while their own small frames fill up.
